@@ -37,3 +37,5 @@ func (c *verifChan) Close() error {
 	_ = c.r.Close()
 	return c.w.Close()
 }
+
+func verifNm(base string, i int) string { return base + string(rune('0'+i)) }
